@@ -11,6 +11,11 @@ ValB(k) == CASE k = "int" -> "3" [] k = "bigint" -> "B3" [] k = "float" -> "2.5"
 BinOps == {"+", "-", "*", "/", "%", "<<", ">>", "&", "|", "xor", "<", "<=", ">", ">=", "==", "!=", "&&", "||", "^"}
 OpCases == {[id |-> "op " \o ka \o " " \o op \o " " \o kb, setup |-> <<"a = " \o ValA(ka), "b = " \o ValB(kb)>>, e |-> "a " \o op \o " b"] :
               op \in BinOps, ka \in Kinds6, kb \in Kinds6}
+(* concatenation with a string that is empty at run time: the result is still a str *)
+EmptyCases == {[id |-> "op " \o ka \o " + empty str", setup |-> <<"a = " \o ValA(ka), "b = \"\"">>, e |-> "a + b"] : ka \in Kinds6}
+              \cup {[id |-> "op empty str + " \o ka, setup |-> <<"a = " \o ValA(ka), "b = \"\"">>, e |-> "b + a"] : ka \in Kinds6}
+              \cup {[id |-> "op (" \o ka \o " + empty str) + int", setup |-> <<"a = " \o ValA(ka), "b = \"\"">>, e |-> "(a + b) + 1"] : ka \in Kinds6}
+              \cup {[id |-> "call (" \o ka \o " + empty str).len()", setup |-> <<"a = " \o ValA(ka), "b = \"\"">>, e |-> "(a + b).len()"] : ka \in Kinds6}
 (* op-assignment: the target keeps its static type, so the stored result must have that kind *)
 OpAssignCases == {[id |-> "opassign " \o ka \o " " \o op \o "= " \o kb, setup |-> <<"a = " \o ValA(ka), "b = " \o ValB(kb), "a " \o op \o "= b">>, e |-> "a"] :
                     op \in {"+", "-", "*", "/", "%"}, ka \in Kinds6, kb \in Kinds6}
@@ -72,7 +77,7 @@ Prologue == <<"z0 = 0", "z1 = 1", "z2 = 2", "fl = 1.5", "il: [int...] = [1, 2, 3
 (* variable) or inside a method                                                                                         *)
 Ctxs == {"module", "closure", "method"}
 VARIABLES c, ctx
-Init == c \in OpCases \cup OpAssignCases \cup UnCases \cup CallCases \cup Prefixed /\ ctx \in Ctxs
+Init == c \in OpCases \cup EmptyCases \cup OpAssignCases \cup UnCases \cup CallCases \cup Prefixed /\ ctx \in Ctxs
 Next == UNCHANGED <<c, ctx>>
 Probe(ind) == <<ind \o "r = " \o c.e, ind \o "print typeof r", ind \o "print r">>
 Lines == Prologue \o c.setup \o <<"print \"GO\"">> \o
